@@ -23,6 +23,8 @@ use crate::traits::rank_sel::ambassador_impl_SelectZeroHinted;
 use crate::traits::rank_sel::ambassador_impl_SelectZeroUnchecked;
 use std::ops::Index;
 
+use super::masked_word;
+
 /// A ranking structure using 25% of additional space and providing the fastest
 /// available rank operations.
 ///
@@ -165,13 +167,13 @@ impl<B: AsRef<[usize]> + BitLength> Rank9<B, Box<[BlockCounters]>> {
                 absolute: num_ones,
                 relative: 0,
             };
-            num_ones += bits.as_ref()[i].count_ones() as usize;
+            num_ones += masked_word(bits.as_ref(), i, num_bits).count_ones() as usize;
 
             for j in 1..8 {
                 let rel_count = num_ones - count.absolute;
                 count.set_rel(j, rel_count);
                 if i + j < num_words {
-                    num_ones += bits.as_ref()[i + j].count_ones() as usize;
+                    num_ones += masked_word(bits.as_ref(), i + j, num_bits).count_ones() as usize;
                 }
             }
 
